@@ -20,7 +20,7 @@ try:
     problems, items = R.run(B, r, flat)
 except Exception as e:
     traceback.print_exc()
-    sys.exit(10)
+    sys.exit(10 if r.get('claim') == 'exception' else 11)
 bad = list(problems[:3])
 for name, lhs, rhs in items:
     if len(lhs) != len(rhs) or not all((a == b) if isinstance(a, (str, int)) and not isinstance(a, bool) else OF.close(a, b) for a, b in zip(lhs, rhs)):
